@@ -16,6 +16,14 @@ def encodings_for(b, c, tier):
         return []
     n = len(vals)
     idxs = [n // 2] if tier == 'quick' else sorted(set([0, n // 2, n - 1, n // 3]))
+    if c.family == 'S4':
+        # optional-run shapes: the resumption point depends on which members are present, and the encodings are tiny
+        seen_presence, idxs = set(), []
+        for i, (v, d) in enumerate(vals):
+            key = tuple(sorted(v)) if isinstance(v, dict) else None
+            if key not in seen_presence:
+                seen_presence.add(key)
+                idxs.append(i)
     out = []
     for i in idxs:
         v, d = vals[i]
@@ -46,7 +54,7 @@ def encodings_for(b, c, tier):
 
 def make_worker(tier):
     full_max = 96 if tier == 'quick' else 160
-    k2_max = 300 if tier == 'quick' else 2048
+    k2_max = 300 if tier == 'quick' else 640
 
     def worker(b):
         o = base.Out()
